@@ -12,7 +12,56 @@ def c08groups (toks : List String) : List (List String) :=
     | t :: r => go (t :: cur) acc r
   go [] [] toks
 
-def bytesList? (ts : List String) : Option (List Bytes) := ts.mapM unhexBytes?
+/-- prepend `k` copies of `b` -/
+def repPre (b : Bytes) : Nat → Bytes → Bytes
+  | 0, acc => acc
+  | k + 1, acc => b ++ repPre b k acc
+
+/-- Byte strings in op lines: "-" (empty), plain hex, or a run-length form — segments joined by
+"_", a segment being hex or `hex*count` (the bytes repeated `count` times).  A pure encoding
+(large generated messages would otherwise give op lines of several megabytes). -/
+def unrle? (s : String) : Option Bytes :=
+  if s == "-" then some [] else
+  if !(s.contains '_') && !(s.contains '*') then unhexBytes? s else
+  (s.splitOn "_").foldr (fun seg acc =>
+    match acc, seg.splitOn "*" with
+    | some a, [h] => (unhexBytes? h).map (· ++ a)
+    | some a, [h, n] =>
+      match unhexBytes? h, n.toNat? with
+      | some b, some k => some (repPre b k a)
+      | _, _ => none
+    | _, _ => none) (some [])
+
+def bytesList? (ts : List String) : Option (List Bytes) := ts.mapM unrle?
+
+/-- fault modes of a chain case.  Through the queue: `b<k>` = the body reader of the first attempt
+fails after `k` octets, `o` = the body cannot be opened at the first attempt; the message is then
+delivered by a retry that re-reads the spool; `s<k>` = the body reader fails after `k` octets while
+the queue is storing the message: `storeNewMessage` returns the error, the message is refused, no
+attempt is ever made.  Directly on `smtpconn.Data`:
+`x<p><kind><k>c<chunk>`, `p` = `s` (SMTP) | `l` (LMTP), kind `n` = undisturbed, `b` / `e` = the body
+reader fails after `k` octets (error alone / together with the last octets), `w` = the connection
+fails after `k` octets of DATA; `chunk` (octets per Read) does not matter to the model. -/
+structure Fault where
+  direct : Bool
+  kind : String
+  k : Nat
+
+def faultOf (mode : String) : Option Fault :=
+  match mode.toList with
+  | ['o'] => some ⟨false, "o", 0⟩
+  | 'b' :: ds => (String.ofList ds).toNat?.map (fun k => ⟨false, "b", k⟩)
+  | 's' :: ds => (String.ofList ds).toNat?.map (fun k => ⟨false, "s", k⟩)
+  | 'x' :: p :: kd :: rest =>
+    if p != 's' && p != 'l' then none else
+    if kd != 'n' && kd != 'b' && kd != 'e' && kd != 'w' then none else
+    match (String.ofList rest).splitOn "c" with
+    | [ks, cs] =>
+      match ks.toNat?, cs.toNat? with
+      | some k, some _ => some ⟨true, String.singleton kd, k⟩
+      | _, _ => none
+    | _ => none
+  | _ => none
 
 def sha (b : Bytes) : String := hexBytes (Driver.C08Sha.sha256 b)
 
@@ -44,14 +93,30 @@ def showVErr : VErr → String
 /-- `chain <mode> … | <generated fields> | <added> | <body> # <signed header, top to bottom>`:
 what reaches the next hop and what a verifier derives there. -/
 def chain (mode : String) (h : List Bytes) (body : Bytes) : String :=
-  let p? := if mode == "m" then some (writeHeader h ++ body)
-            else nextHop (mode != "d") h body
+  let flt := faultOf mode
+  -- what the next hop ends up with from the attempt maddy counts as successful (if there is one)
+  let p? : Option Bytes :=
+    match flt with
+    | some ⟨true, kind, k⟩ =>
+      if kind == "n" then receive (transmit h body)
+      else if kind == "w" then receive ((transmit h body).take k)
+      else receive (transmitCut h body k)
+    | some ⟨false, "s", _⟩ => none
+    | _ => if mode == "m" then some (writeHeader h ++ body) else nextHop (mode != "d") h body
+  -- how many copies the next hop acknowledged, over all attempts
+  let first := match flt with
+    | some ⟨false, "b", k⟩ => acceptedCount h body [some k]
+    | _ => 0
+  let n := first + (if p?.isSome then 1 else 0)
+  let acc := match flt with
+    | some ⟨true, kind, _⟩ => s!" acc={n} sent={if kind == "n" then 1 else 0}"
+    | _ => if mode == "m" then "" else s!" acc={n}"
   match p? with
-  | none => "err transport"
+  | none => s!"hdr={sha (spool h)} payload=none{acc}"
   | some p =>
     match verifierView p with
-    | .ok v => s!"hdr={sha (spool h)} payload={p.length}:{sha p} c={canonName v.hc}/{canonName v.bc} h={v.hkeys.length} bh={sha v.bodyCanon} hh={sha v.digestInput}"
-    | .error e => s!"hdr={sha (spool h)} payload={p.length}:{sha p} err {showVErr e}"
+    | .ok v => s!"hdr={sha (spool h)} payload={p.length}:{sha p} c={canonName v.hc}/{canonName v.bc} h={v.hkeys.length} bh={sha v.bodyCanon} hh={sha v.digestInput}{acc}"
+    | .error e => s!"hdr={sha (spool h)} payload={p.length}:{sha p} err {showVErr e}{acc}"
 
 def splitHash (toks : List String) : List String × List String :=
   (toks.takeWhile (· != "#"), (toks.dropWhile (· != "#")).drop 1)
@@ -59,11 +124,11 @@ def splitHash (toks : List String) : List String × List String :=
 def handle (toks : List String) : String :=
   match toks with
   | "chain" :: mode :: rest =>
-    if mode != "m" && mode != "d" && mode != "r" && mode != "R" then "bad-op" else
+    if mode != "m" && mode != "d" && mode != "r" && mode != "R" && (faultOf mode).isNone then "bad-op" else
     let (left, right) := splitHash rest
     match c08groups left, bytesList? right with
     | [_, _, _, [body]], some h =>
-      match unhexBytes? body with
+      match unrle? body with
       | some b => chain mode h b
       | none => "bad-op"
     | _, _ => "bad-op"
@@ -89,7 +154,7 @@ def handle (toks : List String) : String :=
       | .error e => "err " ++ showVErr e
     | none => "bad-op"
   | [["vdata", payload]] =>
-    match unhexBytes? payload with
+    match unrle? payload with
     | some p =>
       match verifierView p with
       | .ok v => s!"ok {canonName v.hc} {canonName v.bc} {v.picked} {hexBytes v.bodyCanon} {hexBytes v.digestInput} {hexBytes v.b} {hexBytes v.bh}"
